@@ -128,7 +128,14 @@ def forbidden_scan():
             if not fn.endswith(".v"):
                 continue
             p = os.path.join(root, fn)
-            txt = open(p).read()
+            try:
+                txt = open(p).read()
+            except FileNotFoundError:
+                # a temporary Cases/*.v file of another check running at the same time was removed between listing and reading;
+                # the development proper (Model/ Proofs/ Props/ Gen/) is only written under the build lock this scan runs in
+                if os.path.basename(root) == "Cases":
+                    continue
+                raise
             txt = strip_coq_comments(txt)
             for m in FORBIDDEN_RE.finditer(txt):
                 bad.append(f"{os.path.relpath(p, COQ)}: {m.group(0)}")
